@@ -499,7 +499,7 @@ LAWS = [
 ]
 LAWS.append(
     Law("query_derive_query", None, run_qdq, enumerate=qdq_cases, enum_shards=16,
-        exhaustive=lambda tier: {"name": "all (A, D, B) operation triples on every pool object of two fixed pools per dimension: A queries X, D derives an object of X's type, B consumes it", "size": 0, "exhaustive": True},
+        exhaustive=lambda tier: {"name": "all (A, D, B) operation triples on every pool object of fixed pools (two per dimension in the thorough tier, one and a sample of at most ~28 consumers B per object in the quick tier): A queries X, D derives an object of X's type, B consumes it", "size": 0, "exhaustive": tier == "thorough"},
         rule="B(object derived after a query) == B(history-free copy): cached attributes must not leak stale data into derived objects")
 )
 
